@@ -6,10 +6,13 @@ package harness
 import (
 	"fmt"
 	"io"
+	"os"
+	"runtime"
 	"sort"
 	"strings"
 	"sync"
 	"testing"
+	"time"
 
 	"github.com/ipfs/go-cid"
 	"github.com/ipld/go-ipld-prime/datamodel"
@@ -177,7 +180,7 @@ func TestC17_P_ConcurrentReads(t *testing.T) {
 			}(i)
 		}
 		close(start)
-		wg.Wait()
+		c17Wait(&wg, fmt.Sprintf("%s, %d goroutines, scripts %+v", kind, g, scripts))
 		for i := range scripts {
 			for j := range scripts[i] {
 				if got[i][j] != want[i][j] {
@@ -210,6 +213,22 @@ func TestC17_P_ConcurrentReads(t *testing.T) {
 		ev.Case(fmt.Sprintf("%s g=%d %v shared=%v", kind, g, mk, sharedShard), nt, "kind:"+kind, fmt.Sprintf("goroutines:%d", g), fmt.Sprintf("shared-child-shard:%v", sharedShard))
 		ev.Sample(map[string]any{"node": kind, "goroutines": g, "ops_per_goroutine": len(scripts[0]), "op_mix": mk, "shared_child_shard": sharedShard})
 	})
+}
+
+// c17Wait waits for the goroutines; operations on <= 300-byte files and <= 120-entry directories take microseconds, so
+// not finishing within two minutes means a deadlock or livelock on the shared node. That cannot be shrunk (every retry
+// would hang again), so the case is printed and the process exits with a failing verdict.
+func c17Wait(wg *sync.WaitGroup, desc string) {
+	done := make(chan struct{})
+	go func() { wg.Wait(); close(done) }()
+	select {
+	case <-done:
+	case <-time.After(120 * time.Second):
+		buf := make([]byte, 1<<16)
+		buf = buf[:runtime.Stack(buf, true)]
+		fmt.Printf("--- FAIL: TestC17_P_ConcurrentReads (watchdog)\nC17: concurrent operations on one shared node did not return within 120s (deadlock or livelock): %s\n%s\nFAIL\n", desc, buf)
+		os.Exit(1)
+	}
 }
 
 // F9 (fixed): four goroutines looking names up on a freshly reified sharded directory.
@@ -249,6 +268,6 @@ func TestC17_R_F9_ConcurrentLookups(t *testing.T) {
 				}
 			}(g)
 		}
-		wg.Wait()
+		c17Wait(&wg, "F9 regression: 4 goroutines x 200 lookups")
 	}
 }
